@@ -617,12 +617,13 @@ func (c *c13) valueBeforeErr() {
 				if errv == nil && c.errCannotHappen(f, call) {
 					continue
 				}
-				for _, u := range c.uses(val, 0) {
+				for _, us := range c.usesVia(val, 0, nil) {
+					u := us.in
 					if _, isRet := u.(*ssa.Return); isRet {
 						continue // handed to the caller together with (or instead of) the error
 					}
 					uses++
-					lits := e.DCS(u)
+					lits := append(append([]ir.NLit{}, e.DCS(u)...), us.lits...)
 					safe := HasNilCmp(lits, func(x ssa.Value) bool { return ir.Resolve(x) == ssa.Value(val) }, true)
 					if errv != nil {
 						for _, l := range lits {
@@ -742,34 +743,81 @@ func (c *c13) strictUse(u ssa.Instruction, val ssa.Value) bool {
 func (c *c13) errCannotHappen(f *ssa.Function, call *ssa.Call) bool {
 	// dag.decode: mapstructure.NewDecoder fails only when DecoderConfig.Result is not a
 	// pointer; decode passes `new(definition)`.
-	return shortName(f) == "dag.decode" && strings.HasSuffix(ir.CalleeName(&call.Call), "mapstructure.NewDecoder")
+	if !strings.HasSuffix(ir.CalleeName(&call.Call), "mapstructure.NewDecoder") || len(call.Call.Args) != 1 {
+		return false
+	}
+	// (checked on the call itself, wherever it is made: the configuration is a
+	// literal whose Result field is given a pointer)
+	al, ok := ir.Resolve(call.Call.Args[0]).(*ssa.Alloc)
+	if !ok {
+		return false
+	}
+	for _, ref := range *al.Referrers() {
+		fa, isFA := ref.(*ssa.FieldAddr)
+		if !isFA || ir.FieldNameOf(fa.X.Type(), fa.Field) != "Result" {
+			continue
+		}
+		for _, r2 := range *fa.Referrers() {
+			if st, isS := r2.(*ssa.Store); isS && st.Addr == ssa.Value(fa) {
+				v := ir.Resolve(st.Val)
+				if mi, isMI := v.(*ssa.MakeInterface); isMI {
+					v = ir.Resolve(mi.X)
+				}
+				if _, isP := v.Type().Underlying().(*types.Pointer); isP {
+					return true
+				}
+			}
+		}
+	}
+	return false
 }
 
 // uses lists the instructions that put v to use, looking through phis,
 // conversions and interface boxing.
 func (c *c13) uses(v ssa.Value, depth int) []ssa.Instruction {
 	var out []ssa.Instruction
+	for _, u := range c.usesVia(v, depth, nil) {
+		out = append(out, u.in)
+	}
+	return out
+}
+
+// useSite is a use of a value together with the conditions of the φ-edges the
+// value travelled over on its way there (`var x *T; if c { x, err = f(); if err
+// != nil { return } }; use(x)`: the use sees f's result only over an edge on
+// which err == nil).
+type useSite struct {
+	in   ssa.Instruction
+	lits []ir.NLit
+}
+
+func (c *c13) usesVia(v ssa.Value, depth int, via []ir.NLit) []useSite {
+	var out []useSite
 	if v.Referrers() == nil || depth > 4 {
 		return nil
 	}
 	for _, ref := range *v.Referrers() {
 		switch x := ref.(type) {
 		case *ssa.Phi:
-			out = append(out, c.uses(x, depth+1)...)
+			for k, ed := range x.Edges {
+				if ed == v {
+					out = append(out, c.usesVia(x, depth+1, append(append([]ir.NLit{}, via...), c.e.DCSPhiEdge(x.Block(), k)...))...)
+				}
+			}
 		case *ssa.MakeInterface:
-			out = append(out, c.uses(x, depth+1)...)
+			out = append(out, c.usesVia(x, depth+1, via)...)
 		case *ssa.ChangeType:
-			out = append(out, c.uses(x, depth+1)...)
+			out = append(out, c.usesVia(x, depth+1, via)...)
 		case *ssa.ChangeInterface:
-			out = append(out, c.uses(x, depth+1)...)
+			out = append(out, c.usesVia(x, depth+1, via)...)
 		case *ssa.Convert:
-			out = append(out, c.uses(x, depth+1)...)
+			out = append(out, c.usesVia(x, depth+1, via)...)
 		case *ssa.DebugRef:
 		case *ssa.BinOp:
 			// comparisons (v == nil) are tests, not uses
 		case *ssa.If:
 		default:
-			out = append(out, ref)
+			out = append(out, useSite{ref, via})
 		}
 	}
 	return out
@@ -956,37 +1004,51 @@ func (c *c13) validity() {
 				"a signal name is accepted without having been validated itself (the validated text differs from the stored text, or there is no validation): at stop time the stored name resolves to signal 0 and the step is never signalled")
 		}
 	}
-	// (2) Schedule values only from parsed expressions
-	ps := e.Fn(dagRel, "parseSchedules")
-	if ps != nil {
+	// (2) Schedule values only from parsed expressions: wherever the package fills a
+	// Schedule's Expression, the same text was accepted by the cron parser (called
+	// in place or through a helper of the package)
+	{
 		n := 0
-		for _, b := range ps.Blocks {
-			for _, in := range b.Instrs {
-				st, ok := in.(*ssa.Store)
-				if !ok {
-					continue
-				}
-				fa, ok := st.Addr.(*ssa.FieldAddr)
-				if !ok || ir.FieldNameOf(fa.X.Type(), fa.Field) != "Expression" {
-					continue
-				}
-				n++
-				okp := false
-				for _, l := range e.DCS(st) {
-					if l.Kind == "cmp" && l.Op == token.EQL && ir.IsNilConst(l.Y) {
-						if ex, isE := ir.Resolve(l.X).(*ssa.Extract); isE && ex.Index == 1 {
-							if pc, isC := ex.Tuple.(*ssa.Call); isC && ir.CalleeName(&pc.Call) == "(github.com/robfig/cron/v3.Parser).Parse" && ir.Resolve(pc.Call.Args[1]) == ir.Resolve(st.Val) {
-								okp = true
+		spd := e.P.Pkg(dagRel)
+		for _, ps := range e.RepoFuncsSorted() {
+			if spd == nil || rootFn(ps).Package() != spd {
+				continue
+			}
+			for _, b := range ps.Blocks {
+				for _, in := range b.Instrs {
+					st, ok := in.(*ssa.Store)
+					if !ok {
+						continue
+					}
+					fa, ok := st.Addr.(*ssa.FieldAddr)
+					if !ok || ir.FieldNameOf(fa.X.Type(), fa.Field) != "Expression" || !strings.HasSuffix(ir.NamedType(fa.X.Type()), "internal/dag.Schedule") {
+						continue
+					}
+					n++
+					alts := e.expandBound(e.DCS(st))
+					okp := len(alts) > 0
+					for _, alt := range alts {
+						found := false
+						for _, l := range alt {
+							if l.Kind == "cmp" && l.Op == token.EQL && ir.IsNilConst(l.Y) {
+								if ex, isE := ir.Resolve(l.X).(*ssa.Extract); isE && ex.Index == 1 {
+									if pc, isC := ex.Tuple.(*ssa.Call); isC && ir.CalleeName(&pc.Call) == "(github.com/robfig/cron/v3.Parser).Parse" && ir.Deep(l.Val(pc.Call.Args[1])) == ir.Deep(st.Val) {
+										found = true
+									}
+								}
 							}
 						}
+						if !found {
+							okp = false
+						}
 					}
+					r.Check(okp, "parseSchedules: Schedule built only from an expression the cron parser accepted", e.InstrPos(st),
+						"a schedule expression is accepted without (successfully) parsing that same expression")
 				}
-				r.Check(okp, "parseSchedules: Schedule built only from an expression the cron parser accepted", e.InstrPos(st),
-					"a schedule expression is accepted without (successfully) parsing that same expression")
 			}
 		}
 		if n == 0 {
-			r.Unknown("parseSchedules: Schedule construction", e.Pos(ps.Pos()), "no store to Schedule.Expression")
+			r.Unknown("parseSchedules: Schedule construction", dagRel, "no store to Schedule.Expression")
 		}
 	}
 	// (3) the step constructor - the function of the package that returns (*Step,
@@ -1172,6 +1234,19 @@ func (c *c13) validity() {
 					}
 					for _, l := range e.DCS(ci) {
 						if l.Kind == "cmp" && l.Op == token.NEQ && ir.IsNilConst(l.Y) && ir.Resolve(l.X) == ssa.Value(call) {
+							added = true
+						}
+					}
+					// `errs.Add(stage())`: added on every path after the call (the
+					// accumulator drops nil itself)
+					if ci.Block() == call.Block() || call.Block().Dominates(ci.Block()) {
+						if bad, _ := ir.Bypass(call, nil, ir.PathQuery{Stop: func(in ssa.Instruction) bool { return in == ssa.Instruction(ci) }, Bad: func(in ssa.Instruction) bool {
+							if ir.IsReturn(in) {
+								return true
+							}
+							l := ir.InnermostLoop(ir.Loops(f), call.Block())
+							return l != nil && in == l.Header.Instrs[0]
+						}}); bad == nil {
 							added = true
 						}
 					}
